@@ -84,7 +84,10 @@ def case(R, res):
     if r < 0.7:
         spec = gen_numeric(R)
     elif r < 0.85:
-        spec = dict(kind="choice", values=R.choice([["a", "b", "c"], [1, 2, 3, 5, 8], [0.5, 1.5], ["x"], [True, False], [3], [0.1, 0.2, 0.3, 0.4, 0.5, 0.6, 0.7]]))
+        spec = dict(kind="choice", values=R.choice([["a", "b", "c"], [1, 2, 3, 5, 8], [0.5, 1.5], ["x"], [True, False], [3], [0.1, 0.2, 0.3, 0.4, 0.5, 0.6, 0.7],
+                                                         # members that differ only far behind the point, or lie next to zero: still different members
+                                                         [1e-10, 1e-9, 1e-8], [0.0, 1e-9, 1.0], [0.99999, 0.999999, 1.0], [1e-3, 1.00001e-3], [-1e-9, 0.0, 1e-9],
+                                                         [1, 100000, 100001], ["a", "A", "a "]]))
     elif r < 0.93:
         spec = dict(kind="bool", default=R.choice([True, False]))
     else:
